@@ -82,6 +82,11 @@ BreakdownClauses(e) ==
      \cup ok(EqN(e, B(e, "prod.an"), sumk("prod.by_cr", crNZ("prod.by_cr")), n), "prod_by_cr")
      \cup ok(\A j \in AllSrc(e) : EqN(e, B(e, P2("prod.epus_by_src", j)),
                 ISumSet(LAMBDA s : B(e, P3("prod.epus_by_srv_by_src", j, s)), UNION {SrvsOf(e, c) : c \in CrOfSrc(e, j)}), n), "epus_by_srv_by_src")
+     \* produced-and-used energy of a carrier = sum over its sources (the statement: "produced-and-used energy by source")
+     \cup ok(\A c \in Crs(e) : SrcsOf(e, c) = {} \/ ~HasP(e, Cr(c, "prod.epus_an")) \/
+                EqN(e, V(e, Cr(c, "prod.epus_an")),
+                    ISumSet(LAMBDA j : IF HasP(e, Cr(c, P2("prod.epus_by_src_an", j))) THEN V(e, Cr(c, P2("prod.epus_by_src_an", j))) ELSE 0, SrcsOf(e, c)), n),
+             "epus_by_src")
      \cup ok(EqN(e, B(e, "del.an"), B(e, "del.grid") + B(e, "del.onst") + B(e, "used.cgnus"), n), "del_parts")
      \cup ok(EqN(e, B(e, "del.grid"), sumk("del.grid_by_cr", crNZ("del.grid_by_cr")), n), "del_grid_by_cr")
      \cup ok(EqN(e, B(e, "exp.an"), B(e, "exp.grid") + B(e, "exp.nepus"), n), "exp_parts")
@@ -118,9 +123,11 @@ AreaClauses(e) ==
        {"moves_with_area:" \o p : p \in {p \in same : p \notin DOMAIN base.out.flat \/ ~EqN(e, V(e, p), V(base, p), 2)}}
        \cup {"moves_with_area:" \o p : p \in {p \in Ratios : ~RatioEq(e, V(e, p), V(base, p))}}
 
+\* a history starts with a base evaluation (one without and one with load matching)
+IsBase(e) == e.tag \in {"base", "base-lm"}
 Judge(e) ==
-  IF ~OK(e) THEN (IF e.tag # "base" /\ base # <<>> /\ OK(base) THEN {"outcome_changes_with_area"} ELSE {})
-  ELSE SchemaClauses(e) \cup BreakdownClauses(e) \cup M2Clauses(e) \cup (IF e.tag = "base" THEN {} ELSE AreaClauses(e))
+  IF ~OK(e) THEN (IF ~IsBase(e) /\ base # <<>> /\ OK(base) THEN {"outcome_changes_with_area"} ELSE {})
+  ELSE SchemaClauses(e) \cup BreakdownClauses(e) \cup M2Clauses(e) \cup (IF IsBase(e) THEN {} ELSE AreaClauses(e))
 
 Init == l = 1 /\ nbad = 0 /\ base = <<>>
 Next ==
@@ -131,7 +138,7 @@ Next ==
      IN /\ (bad # {} => PrintT(<<"VERDICT", ToJson([prop |-> "C04", case |-> e.case, tag |-> e.tag, clauses |-> bad])>>))
         /\ (dr # {} => PrintT(<<"DRIFT", ToJson([prop |-> "C04", case |-> e.case, tag |-> e.tag, clauses |-> dr])>>))
         /\ nbad' = nbad + (IF bad = {} THEN 0 ELSE 1)
-        /\ base' = IF e.tag = "base" THEN e ELSE base
+        /\ base' = IF IsBase(e) THEN e ELSE base
   /\ l' = l + 1
 Spec == Init /\ [][Next]_vars
 Accepted ==
